@@ -212,14 +212,92 @@ def regress_cases(pid):
 
 
 # ---------------------------------------------------------------------------------------------
+# shrinking (DESIGN §3.7): delta debugging on the text of a failing case, keeping the bucket key
+
+
+def _ddmin(units, pred, deadline, joiner):
+    n = 2
+    while len(units) >= 2 and time.time() < deadline:
+        chunk = max(1, len(units) // n)
+        removed = False
+        i = 0
+        while i < len(units) and time.time() < deadline:
+            cand = units[:i] + units[i + chunk:]
+            if cand and pred(joiner.join(cand)):
+                units = cand
+                n = max(n - 1, 2)
+                removed = True
+            else:
+                i += chunk
+        if not removed:
+            if chunk == 1:
+                break
+            n = min(n * 2, len(units))
+    return units
+
+
+def shrink_text(text, pred, seconds):
+    """smallest text found within the time cap for which pred(text) still holds (lines first, then characters)"""
+    deadline = time.time() + seconds
+    try:
+        if not pred(text):
+            return text   # not reproducible through replay: keep as found
+    except Exception:
+        return text
+    trailing = text.endswith("\n")
+    lines = (text[:-1] if trailing else text).split("\n")
+    tail = "\n" if trailing else ""
+    lines = _ddmin(lines, lambda t: pred(t + tail), deadline, "\n")
+    cur = "\n".join(lines) + tail
+    if len(cur) <= 400:
+        chars = _ddmin(list(cur), pred, deadline, "")
+        cur = "".join(chars)
+    return cur
+
+
+def shrink_bucket(replay_fn, pid, key, case, seconds):
+    """generic: shrinks case["text"] (or the first file of case["files"]) while replay still yields `key`"""
+    import copy
+    if replay_fn is None:
+        return case, False
+    if "text" in case and isinstance(case["text"], str) and "line" not in case and "where" not in case:
+        def pred(t):
+            c = copy.deepcopy(case)
+            c["text"] = t
+            ks = {k for k, _ in replay_fn(pid, c)}
+            return ks == {key}   # the same root cause and nothing else wrong: the shrunk input stays inside the property's domain
+        new = shrink_text(case["text"], pred, seconds)
+        if len(new) < len(case["text"]):
+            c = copy.deepcopy(case)
+            c["text"] = new
+            c["shrunk_from_chars"] = len(case["text"])
+            return c, True
+    elif "files" in case and case["files"]:
+        def pred(t):
+            c = copy.deepcopy(case)
+            c["files"] = [[c["files"][0][0], t]]
+            ks = {k for k, _ in replay_fn(pid, c)}
+            return ks == {key}
+        new = shrink_text(case["files"][0][1], pred, seconds)
+        if len(new) < len(case["files"][0][1]) or len(case["files"]) > 1:
+            c = copy.deepcopy(case)
+            if pred(new):
+                c["files"] = [[c["files"][0][0], new]]
+                c["shrunk"] = True
+                return c, True
+    return case, False
+
+
+# ---------------------------------------------------------------------------------------------
 # finishing a run
 
 
-def finish(pid, tier, seed, camp, rule, t0, assumptions=(), level=LEVEL, min_nontrivial=2, extra_cov=None):
+def finish(pid, tier, seed, camp, rule, t0, assumptions=(), level=LEVEL, min_nontrivial=2, extra_cov=None, replay_fn=None):
     known = load_known(pid)
     violations = 0
     lines = []
     seen_known = []
+    shrink_left = 6   # new buckets shrunk per run (each capped in time); the rest keep their smallest recorded case
     for key in sorted(camp.buckets):
         b = camp.buckets[key]
         e = match_known(known, key)
@@ -228,6 +306,12 @@ def finish(pid, tier, seed, camp, rule, t0, assumptions=(), level=LEVEL, min_non
             seen_known.append(key)
             continue
         violations += 1
+        if shrink_left > 0 and replay_fn is not None:
+            shrink_left -= 1
+            try:
+                b["case"], _ = shrink_bucket(replay_fn, pid, key, b["case"], 20 if tier == "quick" else 90)
+            except Exception:
+                pass
         rdir = os.path.join(VERIF, "replays", pid)
         os.makedirs(rdir, exist_ok=True)
         path = os.path.join(rdir, sha(key)[:12] + ".json")
